@@ -21,7 +21,7 @@ ASSUMPTIONS = [
 ]
 
 
-def section(chord, camber, tmax, xt, r_end, n, ccw, roll, pose, open_end=None):
+def section(chord, camber, tmax, xt, r_end, n, ccw, roll, pose, open_end=None, cut=None):
     """closed polyline: envelope of circles of radius r(x) centred on the parabola y = 4 camber x (1 - x/c)"""
     c = chord
     p = math.log(0.5) / math.log(xt)            # u = (x/c)^p puts the maximum at x/c = xt
@@ -53,10 +53,11 @@ def section(chord, camber, tmax, xt, r_end, n, ccw, roll, pose, open_end=None):
     te = cap(c, y(c), gte + math.pi / 2, gte - math.pi / 2, 12)
     gle = math.atan2(yp(0.0), 1.0)
     le = cap(0.0, y(0.0), gle - math.pi / 2, gle - 3 * math.pi / 2, 12)
+    cu, cl = cut if cut else (0, 0)       # vertices dropped from the open end of the upper / lower surface (an uneven cut)
     if open_end == "te":        # open at the trailing end: lower (TE -> LE), leading cap, upper (LE -> TE)
-        pts = lower[::-1] + le + upper
+        pts = lower[:len(lower) - cl][::-1] + le + upper[:len(upper) - cu]
     elif open_end == "le":      # open at the leading end
-        pts = upper + te + lower[::-1]
+        pts = upper[cu:] + te + lower[cl:][::-1]
     else:
         pts = upper + te + lower[::-1] + le          # clockwise
     if ccw:
@@ -153,6 +154,9 @@ def gen_analyze(rng):
     if spec["r_end"] * 2 >= spec["tmax"] * 0.8:
         spec["r_end"] = spec["tmax"] * 0.1
     spec["open_end"] = rng.choice([None, None, None, "te", "le"])
+    if spec["open_end"] and rng.random() < 0.7:
+        k = max(2, spec["n"] // 10)
+        spec["cut"] = rng.choice([[k, 0], [0, k], [k // 2, 0], [0, k // 2]])
     if rng.random() < 0.2:
         # hooked camber: straight, then a sharp left bend aft of the maximum thickness, which sits before the middle of the
         # camber length although it is nearer (in a straight line) to the trailing end
@@ -165,14 +169,32 @@ def gen_analyze(rng):
     lead = rng.choice(["intersect", "converge", "const", "fit", "trace"])
     trail = rng.choice(["intersect", "converge", "const"])
     if spec["open_end"] == "te":
-        trail = rng.choice(["open", "open_gap"])
+        trail = rng.choice(["open", "open_gap", "open_gap"])
     elif spec["open_end"] == "le":
-        lead = rng.choice(["open", "open_gap"])
+        lead = rng.choice(["open", "open_gap", "open_gap"])
     # an open section is analysed with the forward direction given (which end is open is part of the request)
     return {"k": "c10.analyze", "closed": spec["open_end"] is None, "pts": pts, "tol": 1e-6 * chord, "core_tol": 1e-4 * chord,
             "orient": fwd if spec["open_end"] else rng.choice(["tmax", fwd]), "face": rng.choice(["detect", up]),
-            "leading": lead, "trailing": trail, "spec": spec, "timeout_ms": 20000,
+            "leading": lead, "trailing": trail, "spec": spec, "timeout_ms": 20000, "also_reversed": spec.get("open_end") is not None,
             "gauges": [["camber", 0.3 * chord], ["camber", -0.3 * chord], ["camber", 0.5 * chord], ["radius", 0.2 * chord], ["radius", -0.2 * chord], ["radius", 0.45 * chord], ["radius", -0.45 * chord]]}
+
+
+def gen_open_gap(rng):
+    """open sections cut unevenly (one surface reaches clearly further than the other), the open end located by OpenIntersectGap,
+    the other end by the camber / section intersection: analysed in both vertex orders"""
+    while True:
+        c = gen_analyze(rng)
+        sp = c["spec"]
+        if sp.get("family") == "hook" or not sp.get("open_end"):
+            continue
+        k = max(3, sp["n"] // rng.choice([20, 24, 28]))
+        sp["cut"] = rng.choice([[k, 0], [0, k]])
+        c["pts"], _ = make_section(sp)
+        if sp["open_end"] == "te":
+            c["trailing"], c["leading"] = "open_gap", "intersect"
+        else:
+            c["leading"], c["trailing"] = "open_gap", "intersect"
+        return c
 
 
 def gen_oriented(rng):
@@ -214,8 +236,8 @@ def corpus():
 
 
 def generate(rng, tier):
-    n = 50 if tier == "quick" else 600
-    return [gen_analyze(rng) for _ in range(n)] + [gen_oriented(rng) for _ in range(2 * n)] + [gen_orient(rng) for _ in range(2 * n)]
+    n = 56 if tier == "quick" else 600
+    return [gen_analyze(rng) for _ in range(n)] + [gen_open_gap(rng) for _ in range(n // 2)] + [gen_oriented(rng) for _ in range(2 * n)] + [gen_orient(rng) for _ in range(2 * n)]
 
 
 def tag(c, r):
@@ -374,11 +396,22 @@ def oracle(c, r):
     hook = spec.get("family") == "hook"
     xs = []
     worst_c, worst_r = 0.0, 0.0
+    # where the stations are compared with the generating medial axis: away from the ends, and - on a section cut open unevenly -
+    # at least one maximum thickness away from the station where the shorter surface stops (beyond it the medial axis of the
+    # truncated shape is not the generating camber curve)
+    med_lo, med_hi = 0.02 * chord, 0.98 * chord
+    if spec.get("cut") and spec.get("open_end"):
+        mm = spec["n"] // 2
+        kk = max(spec["cut"])
+        if spec["open_end"] == "te":
+            med_hi = min(med_hi, chord * 0.5 * (1 - math.cos(math.pi * (mm - kk) / mm)) - spec["tmax"] * chord)
+        else:
+            med_lo = max(med_lo, chord * 0.5 * (1 - math.cos(math.pi * kk / mm)) + spec["tmax"] * chord)
     for s in st:
         px, py = s["c"][0] - tx, s["c"][1] - ty
         x, off = camber_param(spec, law, [ca * px + sa * py, -sa * px + ca * py])
         xs.append(x)
-        if 0.02 * chord < x < 0.98 * chord:
+        if med_lo < x < med_hi:
             worst_c = max(worst_c, off)
             worst_r = max(worst_r, abs(s["r"] - law["r"](x)))
     # contacts on opposite sides of the camber direction (away from the end caps, where every direction is a contact)
@@ -412,6 +445,29 @@ def oracle(c, r):
         yield ("tmax-value", what + ": maximum thickness %r, law %r" % (2 * r["tmax"]["r"], tm))
     if r["thk_max"] is not None and abs(abs(r["thk_max"]) - 2 * r["tmax"]["r"]) > 0.02 * tm + 5 * tol:
         yield ("tmax-gauge", what + ": get_thickness_max %r vs largest inscribed diameter %r" % (r["thk_max"], 2 * r["tmax"]["r"]))
+    # unchanged by reversing the vertex order (open sections are analysed twice)
+    rv = r.get("rev")
+    if rv is not None:
+        if rv.get("panic"):
+            yield ("reverse-panic", what + ": the same section with reversed vertex order panicked")
+        elif rv.get("err"):
+            yield ("reverse-invariant", what + ": accepted, but rejected (%s) with its vertices in the opposite order" % rv["err"])
+        else:
+            # compared only for the edge locators whose answer is determined by the section (the open end, and the camber / section
+            # intersection); the curvature- and arc-fitting locators pick one of many equally good points on a constant-radius cap
+            det = {"le": c["leading"] in ("open", "open_gap", "intersect"), "te": c["trailing"] in ("open", "open_gap", "intersect")}
+            for nm in ("le", "te"):
+                if not det[nm]:
+                    continue
+                if (r[nm] is None) != (rv[nm] is None):
+                    yield ("reverse-invariant", what + ": %s edge present in one vertex order only" % nm)
+                elif r[nm] is not None and math.dist(r[nm]["p"], rv[nm]["p"]) > 5 * tol:
+                    yield ("reverse-invariant", what + ": %s edge point %r, with the vertex order reversed %r (%r apart, tolerance %r)" % (
+                        "leading" if nm == "le" else "trailing", r[nm]["p"], rv[nm]["p"], math.dist(r[nm]["p"], rv[nm]["p"]), tol))
+            if det["le"] and det["te"] and abs(r["camber_length"] - rv["camber_length"]) > 5 * tol:
+                yield ("reverse-invariant", what + ": camber length %r, with the vertex order reversed %r" % (r["camber_length"], rv["camber_length"]))
+            if abs(rv["tmax"]["r"] - r["tmax"]["r"]) > 5 * tol:
+                yield ("reverse-invariant", what + ": maximum radius %r, with the vertex order reversed %r" % (r["tmax"]["r"], rv["tmax"]["r"]))
     # gauge thicknesses: both gauge points on the section (one per face), a radius gauge at that radius from the leading
     # (positive) or trailing (negative) edge point, an on-camber gauge across the camber point at that length and, where the
     # radius law is flat, equal to the law's thickness there
@@ -479,8 +535,16 @@ def oracle(c, r):
     if up is not None and lo is not None:
         if abs(up["length"] + lo["length"] - r["perimeter"]) > 1e-4 * r["perimeter"]:
             yield ("faces-partition", what + ": upper %r + lower %r != perimeter %r" % (up["length"], lo["length"], r["perimeter"]))
-        upv = [-sa, ca]
-        mean = lambda cv: sum(p[0] * upv[0] + p[1] * upv[1] for p in cv["points"]) / len(cv["points"])
-        if (spec["camber"] > 0 or c["face"] != "detect") and not hook:
-            if mean(up) < mean(lo):
+        # compared at mid chord in the section's own frame (the two faces need not span the same range on an unevenly cut section)
+        def at_mid(cv):
+            best = None
+            for q in cv["points"]:
+                ux, uy = ca * (q[0] - tx) + sa * (q[1] - ty), -sa * (q[0] - tx) + ca * (q[1] - ty)
+                if best is None or abs(ux - 0.5 * chord) < best[0]:
+                    best = (abs(ux - 0.5 * chord), uy)
+            return best[1]
+        # FaceOrient::Detect goes by the curvature of the extracted camber line: on an unevenly cut section that line bends towards the
+        # longer surface near the open end, so the detected side is only demanded for level cuts
+        if ((spec["camber"] > 0 and not spec.get("cut")) or c["face"] != "detect") and not hook:
+            if at_mid(up) < at_mid(lo):
                 yield ("faces-side", what + ": the surface reported as upper lies below the lower one along the upper direction")
